@@ -93,6 +93,7 @@ func main() {
 		ops = append(ops, eng.Gen(rng, *n, st)...)
 	}
 	progressF, _ = os.Create(*outDir + "/progress.txt")
+	oraclePartialF, _ = os.Create(*outDir + "/oracle_partial.txt")
 	var outs, oracle []string
 	if eng.ExecX != nil {
 		ops, outs, oracle = eng.ExecX(ops, st)
@@ -114,6 +115,16 @@ func main() {
 // that a fatal exit inside badger (y.AssertTrue calls log.Fatalf) still leaves the session
 // that caused it on disk.
 var progressF *os.File
+
+// oracleProgress appends an oracle failure to <out>/oracle_partial.txt as soon as it is found, so
+// that it survives a later hang or crash of the implementation (oracle.txt is written at the end).
+var oraclePartialF *os.File
+
+func oracleProgress(line string) {
+	if oraclePartialF != nil {
+		oraclePartialF.WriteString(line + "\n")
+	}
+}
 
 func progress(line string) {
 	if progressF != nil {
